@@ -84,6 +84,28 @@ fn compile_errors(out: &[TokenTree]) -> Option<Vec<String>> {
     Some(msgs)
 }
 
+/// When the original region is not token-identical to the input, find where the generated
+/// items start: the first position near the expected one from which the rest parses as
+/// exactly a trait followed by an impl.
+fn find_generated_suffix(out: &[TokenTree], expected: usize) -> Option<usize> {
+    let lo = expected.saturating_sub(24);
+    let hi = (expected + 8).min(out.len());
+    for j in lo..=hi {
+        if j >= out.len() || !(is_ident(&out[j], "trait") || is_ident(&out[j], "pub") || matches!(&out[j], TokenTree::Punct(p) if p.as_char() == '#')) {
+            continue;
+        }
+        if let Ok(f) = syn::parse2::<syn::File>(collect(&out[j..])) {
+            if f.items.len() == 2
+                && matches!(f.items[0], syn::Item::Trait(_))
+                && matches!(f.items[1], syn::Item::Impl(_))
+            {
+                return Some(j);
+            }
+        }
+    }
+    None
+}
+
 /// Bring the real output into the shape of the model's `Out`: check the claimed-verbatim
 /// original region against the input, parse everything else as generated items.
 fn reparse(kind: &str, input: &[TokenTree], out: &[TokenTree]) -> String {
@@ -106,16 +128,11 @@ fn reparse(kind: &str, input: &[TokenTree], out: &[TokenTree]) -> String {
             let rest: TS = if prefix_ok {
                 collect(&out[input.len()..])
             } else {
-                // fall back: everything after the first item
-                match syn::parse2::<syn::File>(collect(out)) {
-                    Ok(f) => {
-                        let mut ts = TS::new();
-                        for it in f.items.iter().skip(1) {
-                            quote::ToTokens::to_tokens(it, &mut ts);
-                        }
-                        ts
-                    }
-                    Err(_) => return fail(false),
+                // the original was re-printed differently (e.g. syn dropping an empty `<>`):
+                // locate the generated `trait` + `impl` pair near where the original should end
+                match find_generated_suffix(out, input.len()) {
+                    Some(j) => collect(&out[j..]),
+                    None => return fail(false),
                 }
             };
             match wire::gen_items(rest) {
@@ -152,23 +169,28 @@ fn reparse(kind: &str, input: &[TokenTree], out: &[TokenTree]) -> String {
                 None => return fail(false),
             };
             let prefix_ok = starts_with(&out_body, &in_body);
-            if !prefix_ok {
-                return fail(false);
-            }
-            let inside = wire::gen_items(collect(&out_body[in_body.len()..]));
+            let split = if prefix_ok {
+                in_body.len()
+            } else {
+                match find_generated_suffix(&out_body, in_body.len()) {
+                    Some(j) => j,
+                    None => return fail(false),
+                }
+            };
+            let inside = wire::gen_items(collect(&out_body[split..]));
             let after = wire::gen_items(collect(&out[k + 1..]));
             match (inside, after) {
                 (Some(i), Some(a)) => wire::node(
                     "rout",
                     &[
-                        wire::b(true).into(),
+                        wire::b(prefix_ok).into(),
                         wire::b(true).into(),
                         wire::toks(TS::new()),
                         i,
                         a,
                     ],
                 ),
-                _ => fail(true),
+                _ => fail(prefix_ok),
             }
         }
         "trait" => match wire::gen_items(collect(out)) {
@@ -243,7 +265,97 @@ fn run_real(variant: &str, attr: TS, item: TS) -> Result<TS, String> {
     }
 }
 
+/// A concrete-dependency fn expands to a trait carrying a nested `#[::entrait::entrait(..)]`;
+/// the compiler then expands that attribute in turn.  Derive the second-stage cases
+/// (under both facade mappings of `::entrait::entrait`) so that the composition is observed.
+fn nested_cases(id: &str, out: &TS) -> Vec<String> {
+    let mut res = vec![];
+    let file = match syn::parse2::<syn::File>(out.clone()) {
+        Ok(f) => f,
+        Err(_) => return res,
+    };
+    for it in file.items {
+        if let syn::Item::Trait(mut t) = it {
+            let pos = t.attrs.iter().position(|a| {
+                let p = a.path();
+                p.leading_colon.is_some()
+                    && p.segments.len() == 2
+                    && p.segments[0].ident == "entrait"
+                    && p.segments[1].ident == "entrait"
+            });
+            if let Some(pos) = pos {
+                // attribute macros above the nested one (the unimock derivation) have been
+                // expanded by the compiler before the nested invocation sees the trait
+                let a = t.attrs.remove(pos);
+                t.attrs.drain(..pos);
+                // `cfg_attr` is resolved by the compiler before attribute macros run; take the
+                // `cfg(test)` configuration, where the gated derivations are present
+                for attr in t.attrs.iter_mut() {
+                    if attr.path().is_ident("cfg_attr") {
+                        if let syn::Meta::List(l) = &attr.meta {
+                            let toks = trees(l.tokens.clone());
+                            if toks.len() > 2 && is_ident(&toks[0], "test") {
+                                let inner = collect(&toks[2..]);
+                                if let Ok(meta) = syn::parse2::<syn::Meta>(inner) {
+                                    attr.meta = meta;
+                                }
+                            }
+                        }
+                    }
+                }
+                let args: TS = match &a.meta {
+                    syn::Meta::List(l) => l.tokens.clone(),
+                    _ => TS::new(),
+                };
+                let item = quote::ToTokens::to_token_stream(&t);
+                for (tag, variant) in [("np", "plain"), ("nu", "unimock")] {
+                    res.push(format!(
+                        "{}~{}_trait\t{}\t{}\t{}\tnested=1",
+                        id.rsplit_once('_').map(|x| x.0).unwrap_or(id),
+                        tag,
+                        variant,
+                        args,
+                        item
+                    ));
+                }
+            }
+        }
+    }
+    res
+}
+
 fn process_line(line: &str) -> String {
+    let first = process_one(line);
+    // second-stage expansion of nested entrait attributes
+    let mut parts = line.splitn(5, '\t');
+    let id = parts.next().unwrap_or("");
+    let variant = parts.next().unwrap_or("");
+    let attr_text = parts.next().unwrap_or("");
+    let item_text = parts.next().unwrap_or("");
+    if id.contains('~') {
+        return first;
+    }
+    let (attr, item): (TS, TS) = match (attr_text.parse(), item_text.parse()) {
+        (Ok(a), Ok(i)) => (a, i),
+        _ => return first,
+    };
+    let mut lines = vec![first];
+    if let Ok(out) = run_real(variant, attr, item) {
+        // only fn inputs produce the nested attribute; the original fn may have an
+        // unparseable body, so look at the part after it
+        let out_trees = trees(out);
+        let input_trees = trees(item_text.parse::<TS>().unwrap());
+        if starts_with(&out_trees, &input_trees) {
+            let rest = collect(&out_trees[input_trees.len()..]);
+            for l in nested_cases(id, &rest) {
+                lines.push(process_one(&l));
+            }
+        }
+    }
+    lines.join("\n")
+}
+
+fn process_one(line: &str) -> String {
     let mut parts = line.splitn(5, '\t');
     let id = parts.next().unwrap_or("");
     let variant = parts.next().unwrap_or("");
